@@ -118,13 +118,20 @@ func alignNames(ref, cur []nameRec) map[string]string {
 		curHas[c.Name] = true
 	}
 	out := map[string]string{}
+	ambiguous := map[string]bool{}
 	for i := range ref {
 		if ref[i].Name != cur[i].Name && !curHas[ref[i].Name] {
 			if old, dup := out[ref[i].Name]; dup && old != cur[i].Name {
-				return nil // the same old name maps to two different variables: give up
+				// the same old name stood for two variables that now have different names: that
+				// name cannot be aliased (a clause using it no longer evaluates); the others can
+				ambiguous[ref[i].Name] = true
+				continue
 			}
 			out[ref[i].Name] = cur[i].Name
 		}
+	}
+	for n := range ambiguous {
+		delete(out, n)
 	}
 	return out
 }
